@@ -62,6 +62,7 @@ type ordInfo struct {
 	expr   ast.Expr
 	cval   int64
 	offVar types.Object
+	field  types.Object // keyed through a struct held in the map: the counter field
 	why    string
 }
 
@@ -277,6 +278,24 @@ func compositeOrder(info *types.Info, cl *ast.CompositeLit) ast.Expr {
 
 func (a *it4) classifyOrder(ord ast.Expr, p *itEvent) ordInfo {
 	ord = ast.Unparen(ord)
+	// inside an inlined callee: a parameter stands for the argument of the call, *param for X when the
+	// argument is &X
+	if p != nil && p.bind != nil {
+		switch x := ord.(type) {
+		case *ast.Ident:
+			if b, ok := p.bind[a.info.ObjectOf(x)]; ok {
+				ord = ast.Unparen(b)
+			}
+		case *ast.StarExpr:
+			if id, ok := ast.Unparen(x.X).(*ast.Ident); ok {
+				if b, ok := p.bind[a.info.ObjectOf(id)]; ok {
+					if u, ok := ast.Unparen(b).(*ast.UnaryExpr); ok && u.Op == token.AND {
+						ord = ast.Unparen(u.X)
+					}
+				}
+			}
+		}
+	}
 	if tv, ok := a.info.Types[ord]; ok && tv.Value != nil {
 		v, _ := constant.Int64Val(tv.Value)
 		return ordInfo{kind: ordConst, cval: v, expr: ord}
@@ -289,6 +308,15 @@ func (a *it4) classifyOrder(ord ast.Expr, p *itEvent) ordInfo {
 	}
 	switch x := ord.(type) {
 	case *ast.SelectorExpr:
+		// bucket.order where bucket is the element of a local map (bucket := buckets[key], or the value of
+		// a range over that map): the per-key counter is a field of the map's element
+		if id, ok := ast.Unparen(x.X).(*ast.Ident); ok {
+			if fv, ok := a.info.ObjectOf(x.Sel).(*types.Var); ok && fv.IsField() {
+				if mv := a.mapElemOrigin(a.info.ObjectOf(id), p); mv != nil {
+					return ordInfo{kind: ordKeyed, src: mv, field: fv, expr: ord}
+				}
+			}
+		}
 		// chunks.Order where chunks is the value of a range over a channel
 		if id, ok := ast.Unparen(x.X).(*ast.Ident); ok && x.Sel.Name == "Order" {
 			if rs := rangeDefining(a.info, p.path, a.info.ObjectOf(id)); rs != nil {
@@ -467,7 +495,11 @@ func (a *it4) check(s *Sink, props []string, pushes []*itEvent) {
 		}
 		s.Pass(props, base, g.pushes[0].pos(), "single push numbered 0; consumed stream is sorted")
 	case ordKeyed:
-		if msg := a.keyedDiscipline(oi.src, g.pushes); msg != "" {
+		kd := a.keyedDiscipline
+		if oi.field != nil {
+			kd = func(mv types.Object, pushes []*itEvent) string { return a.keyedFieldDiscipline(mv, oi.field, pushes) }
+		}
+		if msg := kd(oi.src, g.pushes); msg != "" {
 			s.Fail(props, base, g.pushes[0].pos(), "per-key counter "+oi.src.Name()+": "+msg)
 			return
 		}
@@ -632,8 +664,15 @@ func (a *it4) counterDiscipline(cv types.Object, pushes []*itEvent) string {
 		events: func(n ast.Node) []tsEvent {
 			var evs []tsEvent
 			visitEval(n, func(m ast.Node) {
+				incPos, pushPos := a.calleeIncrements(m, cv, pushes)
+				if incPos != token.NoPos && incPos < pushPos {
+					evs = append(evs, tsEvent{kind: "inc", node: m})
+				}
 				if pushSet[m] {
 					evs = append(evs, tsEvent{kind: "push", node: m})
+				}
+				if incPos != token.NoPos && incPos >= pushPos {
+					evs = append(evs, tsEvent{kind: "inc", node: m})
 				}
 				if inc, ok := m.(*ast.IncDecStmt); ok {
 					if id, ok := ast.Unparen(inc.X).(*ast.Ident); ok && a.info.ObjectOf(id) == cv {
@@ -763,18 +802,39 @@ func (a *it4) isSorted(o types.Object, use token.Pos) bool {
 // closureDiscipline: nextOrder-like closures.
 func (a *it4) closureDiscipline(fv types.Object, pushes []*itEvent) string {
 	ds := a.defs[fv]
+	info := a.info
+	var scope ast.Node = a.body.outer
+	if len(ds) == 0 {
+		// the closure is a parameter of a named function started with go (an extracted goroutine body):
+		// it is bound by the go statement of the creating function
+		if fdecl, ok := a.body.fn.(*ast.FuncDecl); ok {
+			for _, l := range a.h.launches {
+				if l.target != a.body {
+					continue
+				}
+				for i, prm := range flattenParams(fdecl.Type.Params) {
+					if prm != nil && a.info.ObjectOf(prm) == fv && i < len(l.stmt.Call.Args) {
+						if id, ok := ast.Unparen(l.stmt.Call.Args[i]).(*ast.Ident); ok {
+							hinfo := a.h.pkg.TypesInfo
+							ds = collectDefs(hinfo, a.h.fd)[hinfo.ObjectOf(id)]
+							info, scope = hinfo, a.h.fd
+						}
+					}
+				}
+			}
+		}
+	}
 	if len(ds) != 1 || ds[0] == nil {
 		return "is not bound exactly once"
 	}
 	var lit *ast.FuncLit
-	info := a.info
 	nargs := 0
 	switch d := ast.Unparen(ds[0]).(type) {
 	case *ast.FuncLit:
 		lit = d
 	case *ast.CallExpr:
 		// factory such as obiutils.AtomicCounter()
-		fn := callee(a.info, d)
+		fn := callee(info, d)
 		cd, cp := a.c.DeclOf(fn)
 		if cd == nil {
 			return "comes from a factory without source"
@@ -802,7 +862,7 @@ func (a *it4) closureDiscipline(fv types.Object, pushes []*itEvent) string {
 	if lit == nil {
 		return "is not a function literal"
 	}
-	return closureCounter(info, a.body.outer, lit, false) + a.closureCalls(fv, pushes)
+	return closureCounter(info, scope, lit, false) + a.closureCalls(fv, pushes)
 }
 
 // closureCalls: every call of the closure must be inside a push argument.
@@ -1005,8 +1065,45 @@ func counterInit(info *types.Info, scope ast.Node, cvar types.Object, ignoreVari
 				if ignoreVariadicOverride && isLenGuard(x.Cond) {
 					return false
 				}
+			case *ast.CompositeLit:
+				// a counter that is a field of a local struct: its value in the literal that creates the struct
+				if fv, ok := cvar.(*types.Var); ok && fv.IsField() {
+					if st, ok := info.TypeOf(x).Underlying().(*types.Struct); ok {
+						idx := -1
+						for k := 0; k < st.NumFields(); k++ {
+							if st.Field(k) == fv {
+								idx = k
+							}
+						}
+						if idx >= 0 {
+							var val ast.Expr
+							found := false
+							for k, el := range x.Elts {
+								if kv, ok := el.(*ast.KeyValueExpr); ok {
+									if kid, ok := kv.Key.(*ast.Ident); ok && info.ObjectOf(kid) == cvar {
+										val, found = kv.Value, true
+									}
+								} else if k == idx {
+									val, found = el, true
+								}
+							}
+							if found {
+								vals = append(vals, val)
+							} else {
+								vals = append(vals, nil) // zero value
+							}
+						}
+					}
+				}
 			case *ast.AssignStmt:
 				for i, l := range x.Lhs {
+					if sel, ok := ast.Unparen(l).(*ast.SelectorExpr); ok && info.ObjectOf(sel.Sel) == cvar {
+						if len(x.Lhs) == len(x.Rhs) {
+							vals = append(vals, x.Rhs[i])
+						} else {
+							bad = true
+						}
+					}
 					if id, ok := l.(*ast.Ident); ok && info.ObjectOf(id) == cvar {
 						if len(x.Lhs) == len(x.Rhs) {
 							vals = append(vals, x.Rhs[i])
@@ -1415,4 +1512,193 @@ func (c *Ctx) orderPassThrough(f *types.Func) (int, bool) {
 		return true
 	})
 	return res, ok && n > 0 && res >= 0
+}
+
+// calleeIncrements: m is a call whose callee (module function or local closure) increments, through a
+// pointer parameter bound to &cv, the counter cv.  Returns the position of the increment inside the
+// callee and the position of the (inlined) push made by the same call, NoPos when there is none.
+func (a *it4) calleeIncrements(m ast.Node, cv types.Object, pushes []*itEvent) (token.Pos, token.Pos) {
+	call, ok := m.(*ast.CallExpr)
+	if !ok {
+		return token.NoPos, token.NoPos
+	}
+	body, cinfo, bind := a.c.calleeSource(a.info, a.defs, call)
+	if body == nil {
+		return token.NoPos, token.NoPos
+	}
+	incPos := token.NoPos
+	ast.Inspect(body, func(n ast.Node) bool {
+		if inc, ok := n.(*ast.IncDecStmt); ok && inc.Tok == token.INC {
+			if st, ok := ast.Unparen(inc.X).(*ast.StarExpr); ok {
+				if id, ok := ast.Unparen(st.X).(*ast.Ident); ok {
+					if b, ok := bind[cinfo.ObjectOf(id)]; ok {
+						if u, ok := ast.Unparen(b).(*ast.UnaryExpr); ok && u.Op == token.AND && rootObj(a.info, u.X) == cv {
+							incPos = inc.Pos()
+						}
+					}
+				}
+			}
+		}
+		return true
+	})
+	pushPos := token.NoPos
+	for _, p := range pushes {
+		if p.node == m {
+			if p.call != nil {
+				pushPos = p.call.Pos()
+			} else if p.send != nil {
+				pushPos = p.send.Pos()
+			}
+		}
+	}
+	return incPos, pushPos
+}
+
+// mapElemOrigin: v is a local bound to an element of a local map — v, ok := m[k]; v = m[k]; for k, v := range m —
+// returns the map's object.
+func (a *it4) mapElemOrigin(v types.Object, p *itEvent) types.Object {
+	if v == nil {
+		return nil
+	}
+	var mv types.Object
+	isMapIdx := func(e ast.Expr) types.Object {
+		ix, ok := ast.Unparen(e).(*ast.IndexExpr)
+		if !ok {
+			return nil
+		}
+		if tv, ok := a.info.Types[ix.X]; ok {
+			if _, isMap := tv.Type.Underlying().(*types.Map); isMap {
+				return rootObj(a.info, ix.X)
+			}
+		}
+		return nil
+	}
+	ast.Inspect(a.body.body, func(n ast.Node) bool {
+		switch x := n.(type) {
+		case *ast.AssignStmt:
+			if len(x.Rhs) == 1 && len(x.Lhs) >= 1 && rootObj(a.info, x.Lhs[0]) == v {
+				if m := isMapIdx(x.Rhs[0]); m != nil {
+					mv = m
+				}
+			}
+		case *ast.RangeStmt:
+			if x.Value != nil && rootObj(a.info, x.Value) == v {
+				if tv, ok := a.info.Types[x.X]; ok {
+					if _, isMap := tv.Type.Underlying().(*types.Map); isMap {
+						mv = rootObj(a.info, x.X)
+					}
+				}
+			}
+		}
+		return true
+	})
+	return mv
+}
+
+// keyedFieldDiscipline: the per-key counter is the field fv of the struct the map mv holds for each key.
+// It is 0 (explicitly or by omission) in the literal that creates the element, in the block that creates
+// the key's stream; each in-loop push is followed by the increment of that field; nothing else writes it.
+func (a *it4) keyedFieldDiscipline(mv, fv types.Object, pushes []*itEvent) string {
+	isCounter := func(e ast.Expr) bool {
+		sel, ok := ast.Unparen(e).(*ast.SelectorExpr)
+		return ok && a.info.ObjectOf(sel.Sel) == fv
+	}
+	// creation literal
+	initOK := false
+	list, _ := stmtListOf(a.h.createPath(), a.h.create)
+	for _, st := range list {
+		ast.Inspect(st, func(n ast.Node) bool {
+			cl, ok := n.(*ast.CompositeLit)
+			if !ok {
+				return true
+			}
+			stt, ok := a.info.TypeOf(cl).Underlying().(*types.Struct)
+			if !ok {
+				return true
+			}
+			has := false
+			for i := 0; i < stt.NumFields(); i++ {
+				if stt.Field(i) == fv {
+					has = true
+				}
+			}
+			if !has {
+				return true
+			}
+			zero := true
+			for i, el := range cl.Elts {
+				if kv, ok := el.(*ast.KeyValueExpr); ok {
+					if kid, ok := kv.Key.(*ast.Ident); ok && a.info.ObjectOf(kid) == fv && !isZeroInit(a.info, kv.Value) {
+						zero = false
+					}
+				} else if i < stt.NumFields() && stt.Field(i) == fv && !isZeroInit(a.info, el) {
+					zero = false
+				}
+			}
+			if zero {
+				initOK = true
+			}
+			return true
+		})
+	}
+	if !initOK {
+		return "is not 0 in the element created in the block that creates the key's stream"
+	}
+	nInc := 0
+	msg := ""
+	ast.Inspect(a.body.body, func(n ast.Node) bool {
+		switch x := n.(type) {
+		case *ast.AssignStmt:
+			for _, l := range x.Lhs {
+				if isCounter(l) {
+					msg = "is assigned outside the creation of the element"
+				}
+			}
+		case *ast.IncDecStmt:
+			if isCounter(x.X) {
+				if x.Tok != token.INC {
+					msg = "is decremented"
+				}
+				nInc++
+			}
+		}
+		return true
+	})
+	if msg != "" {
+		return msg
+	}
+	seenInc := 0
+	for _, p := range pushes {
+		flush := false
+		for k := len(p.path) - 1; k >= 0; k-- {
+			if rs, ok := p.path[k].(*ast.RangeStmt); ok {
+				if tv, ok := a.info.Types[rs.X]; ok {
+					if _, isMap := tv.Type.Underlying().(*types.Map); isMap {
+						flush = true
+					}
+				}
+				break
+			}
+			if _, ok := p.path[k].(*ast.ForStmt); ok {
+				break
+			}
+		}
+		if flush {
+			continue
+		}
+		list, i := stmtListOf(p.path, enclosingStmt(p.path))
+		if list == nil || i+1 >= len(list) {
+			return "push is not followed by the increment of its key's counter (duplicate batch number) at " + a.c.Pos(p.pos())
+		}
+		inc, ok := list[i+1].(*ast.IncDecStmt)
+		if !ok || !isCounter(inc.X) || inc.Tok != token.INC {
+			return "push is not followed by the increment of its key's counter (duplicate batch number) at " + a.c.Pos(p.pos())
+		}
+		seenInc++
+	}
+	if seenInc != nInc {
+		return "is incremented somewhere without a push: a batch number is skipped"
+	}
+	_ = mv
+	return ""
 }
